@@ -1,5 +1,5 @@
 /-
-Hill climbing (mesh support) terminates within #vertices moves.
+Hill climbing (mesh support) terminates within #vertices moves — in any arithmetic.
 -/
 import D3.Spec.Real
 import D3.Model.Termination
@@ -13,56 +13,125 @@ set_option linter.unusedSectionVars false
 namespace D3
 namespace Term
 
-/-- vertices (among `0 … n-1`) that project strictly beyond vertex `i` -/
-noncomputable def better (proj : Nat → ℝ) (n i : Nat) : Finset Nat :=
-  (Finset.range n).filter fun j => proj i < proj j
+section AnyArith
+scalar_variables
 
-theorem better_ssubset (proj : Nat → ℝ) (n i j : Nat) (hj : j < n) (h : proj i < proj j) :
-    better proj n j ⊂ better proj n i := by
+open Classical in
+/-- vertices (among `0 … n-1`) above vertex `i` in the relation `R` -/
+noncomputable def above (R : Nat → Nat → Prop) (n i : Nat) : Finset Nat :=
+  (Finset.range n).filter fun j => R i j
+
+open Classical in
+theorem above_ssubset (R : Nat → Nat → Prop) (hirr : ∀ i, ¬ R i i)
+    (htr : ∀ i j k, R i j → R j k → R i k) (n i j : Nat) (hj : j < n) (h : R i j) :
+    above R n j ⊂ above R n i := by
   rw [Finset.ssubset_iff_of_subset]
   · refine ⟨j, ?_, ?_⟩
-    · simp [better, hj, h]
-    · simp [better]
+    · simp [above, hj, h]
+    · simp [above, hirr j]
   · intro k hk
-    simp only [better, Finset.mem_filter, Finset.mem_range] at hk ⊢
-    exact ⟨hk.1, lt_trans h hk.2⟩
+    simp only [above, Finset.mem_filter, Finset.mem_range] at hk ⊢
+    exact ⟨hk.1, htr _ _ _ h hk.2⟩
 
-/-- **hill climbing terminates**: with a non-negative threshold, on a graph whose neighbour
-lists stay inside `0 … n-1`, from every start vertex, `fuel > #better` suffices and the number
-of moves is at most the number of vertices that project beyond the start (≤ n). -/
-theorem hillClimb_terminates (proj : Nat → ℝ) (nbrs : Nat → List Nat) (thr : ℝ) (hthr : 0 ≤ thr)
-    (n : Nat) (hn : ∀ i, i < n → ∀ j ∈ nbrs i, j < n) :
-    ∀ (fuel i moves : Nat), i < n → (better proj n i).card < fuel →
+open Classical in
+theorem above_card_lt (R : Nat → Nat → Prop) (hirr : ∀ i, ¬ R i i) (n i : Nat) (hi : i < n) :
+    (above R n i).card < n := by
+  have : above R n i ⊂ Finset.range n := by
+    unfold above
+    rw [Finset.ssubset_iff_of_subset (Finset.filter_subset _ _)]
+    exact ⟨i, Finset.mem_range.mpr hi, by simp [hirr i]⟩
+  simpa using Finset.card_lt_card this
+
+/-- **hill climbing terminates in ANY arithmetic**: for every scalar type and every `-`, `<` on
+it, if the acceptance test `thr < proj j - proj i` is contained in a strict order `R` on the
+vertices, then on a graph whose neighbour lists stay inside `0 … n-1`, from every start vertex,
+`fuel > #above` suffices, the number of moves is at most the number of vertices above the start
+(≤ n − 1), and no neighbour of the result passes the test. -/
+theorem hillClimb_terminates_any (proj : Nat → α) (nbrs : Nat → List Nat) (thr : α)
+    (R : Nat → Nat → Prop) (hirr : ∀ i, ¬ R i i) (htr : ∀ i j k, R i j → R j k → R i k)
+    (n : Nat) (hacc : ∀ i j, i < n → j < n → thr < proj j - proj i → R i j)
+    (hn : ∀ i, i < n → ∀ j ∈ nbrs i, j < n) :
+    ∀ (fuel i moves : Nat), i < n → (above R n i).card < fuel →
       ∃ r, hillClimb proj nbrs thr fuel i moves = some r ∧
-        r.2 ≤ moves + (better proj n i).card ∧ r.1 < n ∧
-        ∀ j ∈ nbrs r.1, ¬ (proj r.1 + thr < proj j) := by
+        r.2 ≤ moves + (above R n i).card ∧ r.1 < n ∧
+        ∀ j ∈ nbrs r.1, ¬ (thr < proj j - proj r.1) := by
   intro fuel
   induction fuel with
   | zero => intro i moves _ h; omega
   | succ fuel ih =>
     intro i moves hi hc
     simp only [hillClimb]
-    cases hf : (nbrs i).find? (fun j => decide (proj i + thr < proj j)) with
+    cases hf : (nbrs i).find? (fun j => decide (thr < proj j - proj i)) with
     | none =>
       refine ⟨(i, moves), rfl, by simp, hi, ?_⟩
       intro j hj hlt
       have := List.find?_eq_none.mp hf j hj
       simp at this
-      linarith
+      exact this hlt
     | some j =>
       have hjm : j ∈ nbrs i := List.mem_of_find?_eq_some hf
-      have hjp : proj i + thr < proj j := by
+      have hjp : thr < proj j - proj i := by
         have := List.find?_some hf
         simpa using this
       have hjn : j < n := hn i hi j hjm
-      have hlt : proj i < proj j := by linarith
-      have hss := Finset.card_lt_card (better_ssubset proj n i j hjn hlt)
+      have hss := Finset.card_lt_card (above_ssubset R hirr htr n i j hjn (hacc i j hi hjn hjp))
       obtain ⟨r, hr, hm, hrn, hloc⟩ := ih j (moves + 1) hjn (by omega)
       exact ⟨r, hr, by omega, hrn, hloc⟩
 
-theorem better_card_le (proj : Nat → ℝ) (n i : Nat) : (better proj n i).card ≤ n := by
-  calc (better proj n i).card ≤ (Finset.range n).card := Finset.card_filter_le _ _
-    _ = n := Finset.card_range n
+/-- instance: `<` a strict order on the scalars and `thr < a - b → b < a` (IEEE-754 comparison and
+subtraction for `thr ≥ 0` or NaN; with NaN operands every test is false) -/
+theorem hillClimb_terminates_strictOrder (proj : Nat → α) (nbrs : Nat → List Nat) (thr : α)
+    (lt_irrefl : ∀ a : α, ¬ a < a) (lt_trans : ∀ a b c : α, a < b → b < c → a < c)
+    (sub_pos : ∀ a b : α, thr < a - b → b < a)
+    (n : Nat) (hn : ∀ i, i < n → ∀ j ∈ nbrs i, j < n) (i : Nat) (hi : i < n) (fuel : Nat)
+    (hfuel : n ≤ fuel) :
+    ∃ r, hillClimb proj nbrs thr fuel i 0 = some r ∧ r.2 + 1 ≤ n ∧ r.1 < n ∧
+      ∀ j ∈ nbrs r.1, ¬ (thr < proj j - proj r.1) := by
+  have hc := above_card_lt (fun a b => proj a < proj b) (fun _ => lt_irrefl _) n i hi
+  obtain ⟨r, hr, hm, hrn, hloc⟩ :=
+    hillClimb_terminates_any proj nbrs thr (fun a b => proj a < proj b) (fun _ => lt_irrefl _)
+      (fun _ _ _ h1 h2 => lt_trans _ _ _ h1 h2) n (fun _ _ _ _ h => sub_pos _ _ h) hn fuel i 0 hi
+      (by omega)
+  exact ⟨r, hr, by omega, hrn, hloc⟩
+
+end AnyArith
+
+/-- vertices (among `0 … n-1`) that project strictly beyond vertex `i` -/
+noncomputable def better (proj : Nat → ℝ) (n i : Nat) : Finset Nat :=
+  (Finset.range n).filter fun j => proj i < proj j
+
+/-- **hill climbing terminates** (exact reals): with a non-negative threshold, on a graph whose
+neighbour lists stay inside `0 … n-1`, from every start vertex, fuel `n` suffices and the number of
+moves is at most `n − 1`. -/
+theorem hillClimb_terminates (proj : Nat → ℝ) (nbrs : Nat → List Nat) (thr : ℝ) (hthr : 0 ≤ thr)
+    (n : Nat) (hn : ∀ i, i < n → ∀ j ∈ nbrs i, j < n) (i : Nat) (hi : i < n) (fuel : Nat)
+    (hfuel : n ≤ fuel) :
+    ∃ r, hillClimb proj nbrs thr fuel i 0 = some r ∧ r.2 + 1 ≤ n ∧ r.1 < n ∧
+      ∀ j ∈ nbrs r.1, ¬ (proj r.1 + thr < proj j) := by
+  obtain ⟨r, hr, hm, hrn, hloc⟩ := hillClimb_terminates_strictOrder proj nbrs thr
+    (fun a => lt_irrefl a) (fun _ _ _ h1 h2 => lt_trans h1 h2) (fun a b h => by linarith) n hn i hi
+    fuel hfuel
+  exact ⟨r, hr, hm, hrn, fun j hj hlt => hloc j hj (by linarith)⟩
+
+/-- **the defect before the repair, abstractly**: if the separately computed gains exceed the
+threshold around a cycle `0 → 1 → 2 → 0`, the pre-repair climb exhausts every fuel -/
+theorem hillClimb_asIs_before_fix_cycles {β : Type} [LT β] [DecidableLT β] (gain : Nat → Nat → β)
+    (thr : β) (h01 : thr < gain 0 1) (h12 : thr < gain 1 2) (h20 : thr < gain 2 0) :
+    ∀ (fuel i moves : Nat), i < 3 →
+      hillClimb_asIs_before_fix gain (fun i => [(i + 1) % 3]) thr fuel i moves = none := by
+  intro fuel
+  induction fuel with
+  | zero => intro i moves _; rfl
+  | succ fuel ih =>
+    intro i moves hi
+    have hg : thr < gain i ((i + 1) % 3) := by
+      have : i = 0 ∨ i = 1 ∨ i = 2 := by omega
+      rcases this with rfl | rfl | rfl
+      · exact h01
+      · exact h12
+      · exact h20
+    simp only [hillClimb_asIs_before_fix, List.find?_cons, decide_eq_true hg]
+    exact ih _ _ (Nat.mod_lt _ (by omega))
 
 end Term
 end D3
